@@ -1,4 +1,5 @@
 SPECIFICATION Spec
 CONSTANTS
+  Small = FALSE
   EmitOn = TRUE
 CHECK_DEADLOCK FALSE
